@@ -413,7 +413,7 @@ fn sample_of(case: &Case) -> Value {
 
 pub fn replay(ws: &Ws, prop: &dyn Property, file: &str) -> Result<i32, String> {
     ws.build(&["simhost"])?;
-    let exec = Executor { simhost: ws.bin("simhost"), tag: format!("replay-{}", prop.id()) };
+    let exec = Executor::new(&ws.bin("simhost"), &format!("replay-{}", prop.id()))?;
     let doc: Value = serde_json::from_slice(&std::fs::read(file).map_err(|e| format!("{file}: {e}"))?).map_err(|e| format!("{file}: {e}"))?;
     let case: Case = serde_json::from_value(doc.get("case").cloned().unwrap_or(doc.clone())).map_err(|e| format!("{file}: {e}"))?;
     let o = prop.evaluate(&exec, &case)?;
@@ -435,7 +435,7 @@ pub fn run(ws: &Ws, prop: &dyn Property, opts: &Opts) -> Result<i32, String> {
     if !is_root() {
         eprintln!("note: not running as root; permission-based worlds rely on the invoking user's own permissions");
     }
-    let exec = Executor { simhost: ws.bin("simhost"), tag: prop.id().to_lowercase() };
+    let exec = Executor::new(&ws.bin("simhost"), &prop.id().to_lowercase())?;
     let budget = Duration::from_secs(opts.budget_s.unwrap_or(if opts.tier == "quick" { 40 } else { 600 }));
     let max_cases: u64 = std::env::var("VERIF_MAX_CASES").ok().and_then(|s| s.parse().ok()).unwrap_or(u64::MAX);
     let next = AtomicU64::new(0);
